@@ -13,4 +13,23 @@ theorem notifications_replay (none : Bool) (L U : List StatE)
 /-- No notification at all when nothing changed. -/
 theorem unchanged_is_silent (L : List StatE) : diffB false L L = [] := C02.resync_is_silent L
 
+/-- No existing unchanged path is reported: a modify notification implies that the identity tuple of the old and the
+new entry differ (metadata differ), for any strictly ascending listings. -/
+theorem unchanged_never_notified (L U : List StatE)
+    (hL : Sorted byteOrd (L.map StatE.toEnt)) (hU : Sorted byteOrd (U.map StatE.toEnt)) (e : BEnt)
+    (h : Ev.modify e ∈ diffB false L U) : ∃ l ∈ L.map StatE.toEnt, l.path = e.path ∧ same l e = false := by
+  obtain ⟨_, l, hl, hp, hs⟩ := (C02.modifies_exactly_changed false L U hL hU e).mp h
+  rcases hs with hs | hs
+  · cases hs
+  · exact ⟨l, hl, hp, hs⟩
+
+/-- every path that exists only in the new listing is reported as added, every co-present path whose identity changed
+as modified -/
+theorem every_change_notified (L U : List StatE)
+    (hL : Sorted byteOrd (L.map StatE.toEnt)) (hU : Sorted byteOrd (U.map StatE.toEnt)) (e : BEnt) (he : e ∈ U.map StatE.toEnt) :
+    ((∀ l ∈ L.map StatE.toEnt, l.path ≠ e.path) → Ev.add e ∈ diffB false L U) ∧
+    (∀ l ∈ L.map StatE.toEnt, l.path = e.path → same l e = false → Ev.modify e ∈ diffB false L U) :=
+  ⟨fun h => (C02.adds_exactly_new false L U hL hU e).mpr ⟨he, h⟩,
+   fun l hl hp hs => (C02.modifies_exactly_changed false L U hL hU e).mpr ⟨he, l, hl, hp, Or.inr hs⟩⟩
+
 end Fsm.C05
